@@ -85,6 +85,15 @@ bool ctx_is_looping_probe(bool *known) {
     return rc == 0;
 }
 
+// final-flush phase: inside the loop/dispatch call, the loop run not yet over, but the context no longer LOOPING
+bool flush_phase_now() {
+    if (!(frame_on_stack_any("loop") || frame_on_stack_any("dispatch"))) return false;
+    if (W->loops.empty() || W->loops.back().ended) return false;
+    bool known;
+    bool looping = ctx_is_looping_probe(&known);
+    return known && !looping;
+}
+
 uint64_t ud_new(bool autofree, const void **ptr_out) {
     uint64_t id = W->next_ud++;
     const void *p;
@@ -276,6 +285,10 @@ static bool cb_start(m_mod_t *self) {
     int ret = g_start_ret.back();
     g_start_ret.pop_back();
     if (!ret) W->slots[slot].start_refused_pending = true;
+    if (!ret || state_of(slot) != ST_RUNNING) {
+        // a start that is refused (or undone inside the callback) need not be announced (the statement does not say)
+        for (auto &o : W->c19_obls) if (!o.done && o.sender == slot && o.topic == M_PS_MOD_STARTED && o.gseq >= W->frames.back().gseq - 2) o.done = true;
+    }
     cb_exit(slot, CB_START);
     return ret != 0;
 }
@@ -432,6 +445,7 @@ static void loop_begin(bool blocking) {
     W->ctx_looping = true;
     W->loop_start_pending_eval = true;
     W->reg_dereg_since_quiescent = 0;   // only (de)registrations made during the start pass itself excuse a delay
+    for (auto &sl : W->slots) sl.c19_stopped_rx_at_loop_start = sl.sys_received.count("1|-1") ? sl.sys_received["1|-1"] : 0;
     orc_c19_loop_edge(true);
 }
 static void loop_end(int rc) {
@@ -457,6 +471,7 @@ static void loop_end(int rc) {
         bool maybe = sl.st == ST_PAUSED || sl.last_non_running_gseq > W->last_real_poll_gseq;
         if (!maybe) continue;
         sl.pills_pending = 0;
+        for (auto &o : W->c19_obls) if (o.recipient == sl.idx) o.done = true;
         if (sl.st == ST_PAUSED && sl.last_non_running_gseq <= W->last_real_poll_gseq) sl.pending = 0;   // PAUSED throughout the flush: discarded for sure
         else sl.pending_exact = false;
         for (auto &sd : W->sends)
@@ -602,6 +617,7 @@ void exec_op(const Op &op, bool in_cb, int cb_slot) {
         if (rc == 0) {
             W->ctx_tick_ns = ns;
             W->ctx_tick_set_gseq = R->gseq;
+            if (ns && !W->c19_first_tick_gseq) W->c19_first_tick_gseq = R->gseq;
             if (ns) { W->c19_tick_ever = true; if (!W->c19_min_tick_ns || ns < W->c19_min_tick_ns) W->c19_min_tick_ns = ns; }
         }
         sim::tr("ctx_tick", (long)(ns / 1000), rc);
